@@ -175,7 +175,7 @@ fn mutants(txs: &[Transaction]) -> Vec<(String, Vec<Transaction>)> {
 pub fn run(tier: &str) -> i32 {
     let mut rep = Report::new("C12", tier, "exploration");
     let quick = tier == "quick";
-    let max_n = if quick { 17 } else { 33 };
+    let max_n = if quick { 17 } else { 65 };
     let net = ic_btc_interface::Network::Regtest;
     let g = factory::genesis(net);
     let store = OneStore { genesis: g.header };
@@ -277,7 +277,7 @@ pub fn run(tier: &str) -> i32 {
     out.samples.push(json!({"transactions": 6, "mutation": "repeat last 2", "root": "left alone", "expected": "rejected: DuplicateTransactions"}));
     rep.out.merge(out);
     rep.evaluations = rep.out.states;
-    rep.rule = "for n = 1..17 (quick) / 1..33 (thorough) transactions (legacy and segwit): the valid block; repetition of the trailing 2^k leaves for every k (all merkle-preserving duplications and their non-preserving siblings), the same with the copies' witnesses altered (same txid, other wtxid), closed under composition to depth 2; every removal, adjacent swap, rotation; coinbase moved, duplicated, second coinbase; a duplicate in the middle; the empty list; each with the header's root left alone and recomputed (header re-mined); through BlockValidator::validate_block and state::insert_block (on a fresh canister, and on one that was announced the block's header before); distinct = distinct block bytes".into();
+    rep.rule = "for n = 1..17 (quick) / 1..65 (thorough) transactions (legacy and segwit): the valid block; repetition of the trailing 2^k leaves for every k (all merkle-preserving duplications and their non-preserving siblings), the same with the copies' witnesses altered (same txid, other wtxid), closed under composition to depth 2; every removal, adjacent swap, rotation; coinbase moved, duplicated, second coinbase; a duplicate in the middle; the empty list; each with the header's root left alone and recomputed (header re-mined); through BlockValidator::validate_block and state::insert_block (on a fresh canister, and on one that was announced the block's header before); distinct = distinct block bytes".into();
     rep.bounds = json!({"tier": tier, "max_transactions": max_n});
     rep.assume("reference: independent merkle routine + the four clauses of the statement");
     rep.assume("transactions that differ only in signature data (same ntxid) cannot occur in a transaction-valid block and are not judged");
